@@ -30,8 +30,8 @@ def gen_histories(ctx, quick):
     the others (Decode / Reevaluate / Unrelated interleavings, simulated long histories) are sampled with the seed"""
     out = []
     # (cfg, simulate, depth, number of non-Analyse-only histories kept)
-    plan = [("HistoryGen2.cfg", None, None, 30), ("HistorySim.cfg", "num=4", 6, 24)] if quick else \
-           [("HistoryGen.cfg", None, None, 1200), ("HistorySim.cfg", "num=40", 6, 1500)]
+    plan = [("HistoryGen2.cfg", None, None, 1000), ("HistorySim.cfg", "num=2", 6, 20)] if quick else \
+           [("HistoryGen2.cfg", None, None, 1000), ("HistoryGen.cfg", None, None, 900), ("HistorySim.cfg", "num=40", 6, 900)]
     for cfg, sim, depth, keep in plan:
         wd = tlc.workdir("c10g")
         spool = os.path.join(wd, "h.spool")
@@ -180,7 +180,8 @@ def run(ctx):
                "mode; `base` is computed by a separate fresh interpreter per block")
     if ctx.replay:
         return replay(ctx)
-    run_M(ctx)
+    if "M" in os.environ.get("VERIF_C10_STAGES", "MG"):      # development aid (mutation experiments)
+        run_M(ctx)
     names = list(c02isa.names())
     if os.environ.get("VERIF_C10_ISAS"):     # development aid for mutation experiments; never set by the registered commands
         names = [n for n in names if n in os.environ["VERIF_C10_ISAS"].split(",")]
